@@ -14,6 +14,9 @@ REGISTRY = {}
 CLAUSES = {
     "C01": ["C01_value", "C01_settles"],
     "C02": ["C02_bag", "C01_value", "C01_settles"],
+    "C03": ["C03_value", "C01_settles", "C20_exposed"],
+    "C05": ["C05_value", "C01_settles", "C20_exposed"],
+    "C10": ["R2_equal", "R2_exposed", "C01_settles"],
     "C11": ["C01_value", "R2_equal", "C11_range", "C01_settles"],
     "C20": ["C20_exposed", "C20_label", "C20_input", "C01_value", "C02_bag"],
 }
@@ -159,8 +162,10 @@ def run_refine(ctx, progs, consts, module="Refine", cfg=None, opts=None, batch_s
         ctx.known[kf] = ctx.known.get(kf, 0) + 1
     for rid, clause, info in br.fails:
         p = srcs.get(rid, {})
-        ctx.violation(rid, clause, info, {"src": p.get("src"), "stmts": p.get("stmts"), "opts": opts or {}, "module": module,
-                                           "consts": c, "job": p.get("job", {})})
+        it = next((x for x in items if x["id"] == rid), {})
+        ctx.violation(rid, clause, info, {"src": p.get("src"), "src2": p.get("src2"), "opts": opts or {}, "module": module, "cfg": cfg,
+                                           "consts": c, "job": p.get("job", {}), "variants": variants or [("", {})],
+                                           "item": {k: v for k, v in it.items() if k != "bps"}})
     for it in items[:3]:
         p = srcs[it["id"]]
         ctx.sample({"id": it["id"], "src": p["src"], "summary(valuations,checked,undef,corner,outputs,unsupported,distinct)": br.summaries[it["id"]]})
@@ -204,6 +209,65 @@ def c02(ctx):
                        "with the interpreter's bundle (map of non-zero members): a leaked operand, doubled or missing member fails")
     ctx.assumptions = ASSUME_BASE
     run_refine(ctx, sel, consts)
+
+
+def mem_check(ctx, grps, vclause, nquick):
+    progs = [p for p in with_ids(gen.generate("GenMem"), "me") if p["grp"] in grps]
+    ctx.cov["corpus_size"] = len(progs)
+    if ctx.tier == "quick":
+        sel = pick(progs, nquick, ctx.seed, always=SMOKE.get(ctx.pid, ()))
+    else:
+        sel = progs
+        ctx.cov["exhaustive"] = True
+    ctx.assumptions = ASSUME_BASE + [
+        "histories change one input at a time and hold it until the circuit settles; TLC closes the reachable graph (all histories)",
+        "a single change that drops the enable while changing the data (or drops set and reset together) is a hardware race: "
+        "that state is not judged and the cell is re-read through its direct reader (counted as raced_states_not_judged)"]
+
+    def item(p, rs):
+        return {"id": p["id"], "stmts": p["stmts"], "u": 1, "mode": "hist", "dom": p["dom"], "vclause": vclause,
+                "bps": [prep_bp(rs[""]["bp"])]}
+    run_refine(ctx, sel, {"DomCap": 100000}, item_fn=item, batch_size=8)
+
+
+@prop("C03")
+def c03(ctx):
+    ctx.cov["rule"] = ("programs = GenMem gated cells (9 enable forms x 5 data forms, shared data/enable input, 1-3 readers, typed/untyped/"
+                       "item-typed cells, two independent and two chained cells); TLC explores ALL input histories (closure of ChangeInput "
+                       "over the trimmed domain) of Circuit(BP) x abstract gated cell and compares every reader at every settled state: "
+                       "0 before the first enabled write, follows v while c > 0, holds afterwards whatever v does")
+    mem_check(ctx, ("cell", "shared", "readers", "two"), "C03_value", 26)
+
+
+@prop("C05")
+def c05(ctx):
+    ctx.cov["rule"] = ("programs = GenMem latches (both argument orders x value 1 / constant / signal x set,reset as boolean signals, "
+                       "comparisons on two inputs, comparisons on one input with disjoint / touching / overlapping thresholds); TLC explores "
+                       "ALL input histories of Circuit(BP) x abstract SR/RS latch with the priority named first in the call")
+    mem_check(ctx, ("latch1", "latch2", "latchx"), "C05_value", 36)
+
+
+@prop("C10")
+def c10(ctx):
+    sc = with_ids(gen.generate("GenScalar"), "sc")
+    bu = with_ids(gen.generate("GenBundle"), "bu")
+    ctx.cov["corpus_size"] = len(sc) + len(bu)
+    if ctx.tier == "quick":
+        sel = pick(sc, 170, ctx.seed + 2, always=SMOKE.get("C10", ())) + pick(bu, 80, ctx.seed + 2, always=SMOKE.get("C10", ()))
+        consts = {"DomCap": 125}
+    else:
+        sel = sc + bu
+        consts = {"DomCap": 1000}
+        ctx.cov["exhaustive"] = True
+    ctx.cov["rule"] = ("every program of the GenScalar and GenBundle cores compiled twice (optimisation on / --no-optimize); TLC runs both "
+                       "blueprints in lock-step from every boundary valuation and compares every exported result (whole bags for bundles); "
+                       "an output only one of the builds exposes is a difference")
+    ctx.assumptions = ASSUME_BASE
+
+    def item(p, rs):
+        return {"id": p["id"], "stmts": p["stmts"], "u": 1, "u2": 2, "r1": False,
+                "bps": [prep_bp(rs[""]["bp"]), prep_bp(rs["#noopt"]["bp"])]}
+    run_refine(ctx, sel, consts, item_fn=item, variants=[("", {}), ("#noopt", {"optimize": False})], batch_size=30)
 
 
 def twin_item(p, rs, **extra):
@@ -264,23 +328,29 @@ SMOKE = {}
 
 
 def replay(ctx, path):
+    """Recompile the recorded program(s) on the current tree and re-run the single trace instance with the
+    clauses as real invariants (Strict), which yields TLC's own counterexample trace."""
     with open(path) as fh:
         rp = json.load(fh)
     pl = rp["payload"]
-    p = {"id": rp["record"], "src": pl["src"], "stmts": pl["stmts"], "job": pl.get("job", {})}
-    compiled = compile_records(ctx, [p], pl.get("opts"))
-    r = compiled[p["id"]][""]
-    if r.get("status") != "ok":
-        print("replay: compiler now says %s: %s" % (r.get("status"), r.get("message")))
+    p = {"id": rp["record"], "src": pl["src"], "src2": pl.get("src2"), "job": pl.get("job", {})}
+    variants = [tuple(v) for v in pl.get("variants") or [("", {})]]
+    compiled = compile_records(ctx, [p], pl.get("opts"), variants)
+    rs = compiled[p["id"]]
+    bad = [r for r in rs.values() if r.get("status") != "ok"]
+    if bad:
+        print("replay: compiler now says %s: %s" % (bad[0].get("status"), bad[0].get("message")))
         return 0
-    it = {"id": p["id"], "stmts": p["stmts"], "u": 1, "bps": [prep_bp(r["bp"])]}
+    it = dict(pl["item"])
+    it["bps"] = [prep_bp(rs[suf]["bp"]) for suf, _ in variants]
     c = dict(pl.get("consts") or {})
     c["Strict"] = True
-    br = refine.run_batches(ctx.wd, pl.get("module", "Refine"), refine.CFG_REFINE, [it], c, batch_size=1)
+    c["Clauses"] = [rp["clause"]]
+    br = refine.run_batches(ctx.wd, pl.get("module", "Refine"), pl.get("cfg") or refine.CFG_REFINE, [it], c, batch_size=1)
     out = open(os.path.join(ctx.wd, "b000", "tlc.out")).read()
-    if "is violated" in out:
+    if "is violated" in out or "Assumption" in out and "is false" in out:
         i = out.index("Error:")
-        print(out[i:i + 6000])
+        print(out[i:i + 8000])
         print("VIOLATION property=%s replay=%s" % (ctx.pid, path))
         return 1
     if br.errors:
